@@ -7,7 +7,7 @@ export GOFLAGS=-mod=mod GOPROXY=off GOSUMDB=off GOTOOLCHAIN=local
 J=4
 if [ "$1" = "-j" ]; then J=$2; shift 2; fi
 sel="$*"
-OUT=/tmp/seedpar; rm -rf $OUT; mkdir -p $OUT
+OUT=/tmp/seedpar-$$; rm -rf $OUT; mkdir -p $OUT
 # the engine binary and the commit of /repo are pinned at the start, so that a long run is not disturbed by
 # rebuilds of the engine or later hook commits
 GOVC=/tmp/seedpar-govc-$$; cp /verif/bin/govc $GOVC; REV=$(git -C /repo rev-parse HEAD); export GOVC REV
